@@ -38,6 +38,23 @@ func c18Sealed() (*envSetup, *Envelope, []crypto.PrivKey) {
 func VerifC18Context() {
 	s, env, privs := c18Sealed()
 	ctx2 := rt.String("ctx2", 0, 1)
+	// the caller may hold all recipient keys, only an unrelated key, or no key at all
+	switch rt.Choose("offered", 3) {
+	case 1:
+		st := envNewKey("stranger")
+		for _, k := range s.keys {
+			rt.Assume(rt.Not(rt.BytesEq(st.seed, k.seed)))
+		}
+		privs = []crypto.PrivKey{st.priv}
+		if ctx2 == s.ctx {
+			return
+		}
+	case 2:
+		privs = nil
+		if ctx2 == s.ctx {
+			return
+		}
+	}
 	payload, _, err := UnlockEnvelope(ctx2, env, privs)
 	if ctx2 == s.ctx {
 		rt.Reach("same context")
@@ -53,7 +70,8 @@ func VerifC18Context() {
 // error, a nil payload, or exactly the original payload; never another payload, never a panic.
 func VerifC18Tamper() {
 	s, env, privs := c18Sealed()
-	switch rt.Choose("field", 7) {
+	truncated := false
+	switch rt.Choose("field", 9) {
 	case 0:
 		env.Threshold = rt.U32("threshold")
 		rt.Assume(env.Threshold <= 3)
@@ -87,8 +105,19 @@ func VerifC18Tamper() {
 			ct2[k] = rt.Ite8(i == k, nb, ct[k])
 		}
 		env.Ciphertext = ct2
+	case 7: // the payload ciphertext cut to any shorter length
+		n := rt.IntRange("payloadCut", 0, len(env.Ciphertext)-1)
+		env.Ciphertext = env.Ciphertext[:n]
+		truncated = true
+	case 8: // a grant ciphertext cut to any shorter length
+		ct := env.Grants[0].Ciphertexts[0]
+		n := rt.IntRange("grantCut", 0, len(ct)-1)
+		env.Grants[0].Ciphertexts[0] = ct[:n]
 	}
 	payload, res, err := UnlockEnvelope(s.ctx, env, privs)
+	if truncated {
+		rt.Assert("a truncated payload ciphertext never opens", payload == nil)
+	}
 	ok := err != nil || payload == nil || rt.BytesEq(payload, s.payload)
 	rt.Assert("tampered envelope: error, nil payload, or exactly the original payload", ok)
 	if payload != nil {
